@@ -72,6 +72,23 @@ type Hooks interface {
 	OnEscape(c *Ctx, instr ssa.Instruction, v AbsVal, how string)
 }
 
+// ValueHook is an optional extension of Hooks: a rule set that models a value
+// domain of its own (e.g. strings under construction) may supply the abstract
+// value of a conversion, make, binary operation or append.
+type ValueHook interface {
+	EvalValue(c *Ctx, v ssa.Value, ops []AbsVal) (AbsVal, bool)
+}
+
+// Eval is the abstract value of v in the current frame.
+func (c *Ctx) Eval(v ssa.Value) AbsVal { return c.It.eval(c.Frame, v) }
+
+func (it *Interp) valueHook(fn *ssa.Function, st *State, v ssa.Value, ops ...AbsVal) (AbsVal, bool) {
+	if vh, ok := it.Cfg.Hooks.(ValueHook); ok {
+		return vh.EvalValue(it.ctx(fn, st), v, ops)
+	}
+	return nil, false
+}
+
 // BaseHooks is a no-op Hooks for embedding.
 type BaseHooks struct{}
 
@@ -742,6 +759,10 @@ func (it *Interp) execBlock(fn *ssa.Function, sum *Summary, w work, panicCtx boo
 					}
 				}
 			}
+			if hv, ok := it.valueHook(fn, st, ins, x, y); ok {
+				setReg(st, ins, hv)
+				continue
+			}
 			setReg(st, ins, it.binop(x, y, ins.Op))
 		case *ssa.FieldAddr:
 			x := it.eval(st, ins.X)
@@ -761,6 +782,10 @@ func (it *Interp) execBlock(fn *ssa.Function, sum *Summary, w work, panicCtx boo
 			}
 		case *ssa.Slice:
 			x := it.eval(st, ins.X)
+			if hv, ok := it.valueHook(fn, st, ins, x); ok {
+				setReg(st, ins, hv)
+				continue
+			}
 			if so, ok := x.(SliceOf); ok {
 				setReg(st, ins, so)
 			} else {
@@ -776,6 +801,10 @@ func (it *Interp) execBlock(fn *ssa.Function, sum *Summary, w work, panicCtx boo
 		case *ssa.Convert:
 			x := it.eval(st, ins.X)
 			it.escape(fn, st, ins, x, "convert")
+			if hv, ok := it.valueHook(fn, st, ins, x); ok {
+				setReg(st, ins, hv)
+				continue
+			}
 			setReg(st, ins, convertVal(x, ins.X.Type(), ins.Type()))
 		case *ssa.ChangeType:
 			x := it.eval(st, ins.X)
@@ -810,7 +839,13 @@ func (it *Interp) execBlock(fn *ssa.Function, sum *Summary, w work, panicCtx boo
 				}
 				setReg(st, ins, outs[0])
 			}
-		case *ssa.Index, *ssa.Lookup, *ssa.MakeSlice, *ssa.MakeMap, *ssa.MakeChan, *ssa.Range, *ssa.Next, *ssa.SliceToArrayPointer, *ssa.MultiConvert:
+		case *ssa.MakeSlice:
+			if hv, ok := it.valueHook(fn, st, ins, it.eval(st, ins.Len)); ok {
+				setReg(st, ins, hv)
+				continue
+			}
+			setReg(st, ins, Top{})
+		case *ssa.Index, *ssa.Lookup, *ssa.MakeMap, *ssa.MakeChan, *ssa.Range, *ssa.Next, *ssa.SliceToArrayPointer, *ssa.MultiConvert:
 			setReg(st, ins.(ssa.Value), Top{})
 		case *ssa.MapUpdate:
 		case *ssa.Defer:
